@@ -35,8 +35,16 @@ MaxSpreadEv(ev) ==
   << <<"C15.accepted=>bound", ev.res = "ok" => SpreadBound(a.offer, a.gross, a.spread, a.ms, a.bp)>>,
      <<"C15.inside=>accepted", SpreadInside(a.offer, a.gross, a.spread, a.ms, a.bp) => ev.res = "ok">> >>
 
+\* incentive weight: three calls (d1,a1), (d1,a2), (d2,a1) with a1 <= a2 and d1 <= d2 inside the allowed range
+WeightEv(ev) ==
+  << <<"C13.weight.defined-on-the-allowed-range", ev.res = "ok">>,
+     <<"C13.weight>=amount", ev.res = "ok" => ev.args.a1 \preceq ev.out.w11 /\ ev.args.a2 \preceq ev.out.w12>>,
+     <<"C13.weight.non-decreasing-in-amount", ev.res = "ok" => ev.out.w11 \preceq ev.out.w12>>,
+     <<"C13.weight.non-decreasing-in-duration", ev.res = "ok" => ev.out.w11 \preceq ev.out.w21>> >>
+
 EvChecks(ev) ==
   CASE ev.ev = "cpswap" -> CpEv(ev)
+    [] ev.ev = "weight" -> WeightEv(ev)
     [] ev.ev = "cpround" -> CpRoundEv(ev)
     [] ev.ev = "maxspread" -> MaxSpreadEv(ev)
     [] ev.ev = "reset" -> <<>>
